@@ -54,6 +54,22 @@ CHECKS = {
          "DESIGN.md 4/C16",
          "Every byte 0x01..0x7f in every spelling and quote style, every pair of bytes in every spelling combination, every body of <= 6 chars over {\\, x, 0, a, G, ', \"}: parsed value == independently decoded bytes; the literal matches its text once and in full and no one-byte perturbation.",
          "ASCII only."),
+ "C06": ("model_checking", "explicit enumeration of the RunFiles file-system state transition (full directory snapshot as state) over commands x contents x modes x pre-states",
+         "DESIGN.md 4/C06",
+         "Every transition of the finite product 14 commands x all file contents over {a,b,\\n} up to length 3-4 plus buffer-boundary sized files x {NOTHING, NEW, OVERWRITE} x {no / stale longer / stale shorter .vored} x {one, two files} is executed on the real RunFiles in a scratch directory; the complete directory afterwards must equal the expected directory, whose contents are computed by slicing the input with the spans and replacements of Run(string).",
+         "OS writes trusted; no crash points (no property asks)."),
+ "C07": ("model_checking", "explicit-state BFS of the real buffered reader's window machine (state key by reflection) + file-vs-string differential of the engine",
+         "DESIGN.md 4/C07",
+         "(a) For 12 (thorough 22) file sizes incl. 0 and the neighbourhoods of 2048/4096/6144/8192, BFS from the initial window over the engine's operation alphabet (Seek;Read and ReadAt at ~60 offsets x 7 lengths) until no new (minOffset,maxOffset) state appears: window content invariant in every state, returned bytes compared with the file on every transition. (b) 15 programs (one-byte-back anchors, lazy scan to end of file with far-back restarts, greedy backtracking, back-references, replace, whole line) x files with the motif at every offset around the buffer boundaries: RunFiles(NOTHING) must equal Run(string) field by field.",
+         "Greedy backtracking programs are capped at 700-byte files (the VM keeps one stack copy per byte: quadratic memory); larger files use the lazy variant."),
+ "C09": ("exploration", "bounded-exhaustive enumeration of accepted programs x all texts from length 0 with a no-panic oracle (panics recovered per case, hangs by watchdog)",
+         "DESIGN.md 4/C09",
+         "Every primitive (incl. empty literals, multi-byte not / not-in / ranges, whole *, all anchors and negations) alone, in pairs, under every loop, captured and back-referenced, and as the body of (nested) pattern definitions referenced after a capture / in loops / twice; D1/D3/D4/D6/D7 programs; fixed named-loop, regex \\b \\B, recursion programs; each on every text of its alphabet from the empty text up; every operator applied to a variable whose type depends on the branch taken; RunFiles on empty / 1-byte / directory targets. No panic of any kind.",
+         "One known finding (F-dynamic-type, see known_findings.json) is attributed by a predicate on the input and printed as KNOWN-FINDING."),
+ "C14": ("translation_validation", "bounded-exhaustive enumeration of regexes; engine vs reference matcher on an independent parse, cross-validated against Go regexp position by position",
+         "DESIGN.md 4/C14",
+         "Every regex of <= 3 nodes (and 4 nodes on texts <= 2; thorough: 4 on all texts) over the documented subset incl. named/numbered groups, lazy forms of every quantifier, back-references, plus a reduced grammar to 4-5 nodes, on every text over {a,b,1,' ',\\n} up to length 3-4: spans and group bindings of `find all @/re/` must equal those of the reference matcher R applied to an independent parse of the regex; on every back-reference-free case R itself must agree with Go's regexp (about 3 million agreeing cases per quick run), otherwise the run ends with ORACLE-DISAGREEMENT (exit 2).",
+         "Go regexp trusted as a conventional backtracking engine on the subset; texts exclude \\r \\f \\v."),
 }
 
 PENDING_REASON = "check not built yet in this round of work (framework is being extended property by property; see DESIGN.md section 7)"
